@@ -259,7 +259,7 @@ def build_once(prog: dict[str, Any], main_text: str, extra_flags: list[str]) -> 
 _ERR_LINE = re.compile(r"(^|: )error: ")
 
 
-def cli_status(prog: dict[str, Any], main_text: str, extra_flags: list[str]) -> dict[str, Any]:
+def cli_status(prog: dict[str, Any], main_text: str, extra_flags: list[str], json_mode: bool = False) -> dict[str, Any]:
     """`mypy.main.main` on ./tmp/main.py of the current cwd; observes whether build raised CompileError."""
     import mypy.build as mb
     from mypy.errors import CompileError
@@ -284,7 +284,7 @@ def cli_status(prog: dict[str, Any], main_text: str, extra_flags: list[str]) -> 
     if all(f.split("=")[0] != "--python-version" for f in args):
         pv = testfile_pyversion(prog["file"])
         args += ["--python-version", f"{pv[0]}.{pv[1]}"]
-    args += ["--show-error-codes", "--no-error-summary", "tmp/main.py"]
+    args += ["--show-error-codes", "--no-error-summary"] + (["--output", "json"] if json_mode else []) + ["tmp/main.py"]
     cwd = os.getcwd()
     sys.path.insert(0, PLUGIN_DIR)
     import contextlib
@@ -303,7 +303,17 @@ def cli_status(prog: dict[str, Any], main_text: str, extra_flags: list[str]) -> 
         except OSError:
             pass
     lines = r["stdout"].splitlines() + r["stderr"].splitlines()
-    n_err = sum(1 for ln in lines if _ERR_LINE.search(ln))
+    n_err = 0
+    for ln in lines:
+        if json_mode and ln.startswith("{"):
+            import json
+
+            try:
+                n_err += json.loads(ln).get("severity") == "error"
+                continue
+            except ValueError:
+                pass
+        n_err += bool(_ERR_LINE.search(ln))
     everything = r["stderr"] + r["stdout"] + stray_out.getvalue() + stray_err.getvalue()
     crashed = "Traceback (most recent call last)" in everything or "INTERNAL ERROR" in everything
     usage = r["stderr"].startswith("usage: mypy") or not seen["called"]  # main() refused the command line: no analysis
